@@ -19,7 +19,7 @@ from sympy import Symbol
 from sympy.logic import And, Not, Or, Xor
 from sympy.logic.boolalg import BooleanFalse, BooleanTrue
 
-from .boolopt.bool_optimizer import merge_expressions
+from .boolopt.bool_optimizer import is_return_bit, merge_expressions
 from .types import interpret_as_qtype
 
 BQMFormat = Literal["bqm", "ising", "qubo", "pq_model"]
@@ -85,7 +85,7 @@ def to_bqm(args, returns, exprs, fmt: BQMFormat):  # noqa: C901
         a_vars[sym.name] = Binary(sym.name)
         stbqm = SympyToBQM(a_vars)
 
-        if sym.name[0:4] == "_ret":
+        if is_return_bit(sym):
             new_e = SympyToBQM(a_vars).visit(exp)
         elif isinstance(exp, Symbol):
             arg = stbqm.visit(exp)
